@@ -15,13 +15,13 @@ use std::path::Path;
 
 pub const CHECK: Check = Check { id: "C17", level: "exploration", flavours: &["prod"], run, replay };
 
-const RULE: &str = "cases = (file tree: empty files, nested directories given as directory arguments, symbolic links to a file and to a directory inside the tree, unicode / space / dash names, paths longer than 100 and 200 bytes, sizes \
+const RULE: &str = "cases = (file tree: empty files, nested directories given as directory arguments, symbolic links to a file and to a directory inside the tree, unicode / space / dash names, names holding [ ] * ? next to the names they match as patterns, paths longer than 100 and 200 bytes, sizes \
 incl. around 128 KiB and 4 MiB; layer options; compression level; 1..3 key pairs made by `mlar keygen`; pipeline of 0..2 \
 further stages among convert(other layers / keys / level) and repair(intact archive), then negative runs) executed with the \
 `mlar` binary built from the tree. Oracle after `create` and after every stage: `list` prints exactly the given paths; \
 `list -vv` shows the humansize-DECIMAL size and the SHA-256 of each file; `cat`, `extract` (whole archive and one listed \
 name, into directories that already hold a longer stale copy of a member, the output directory being named plainly, \
-through a '..' component or through a symbolic link), `to-tar` (output archives and tar files replace \
+through a '..' component or through a symbolic link, relative or absolute), `to-tar` (output archives and tar files replace \
 longer stale files in half of the cases) (parsed with the tar crate) return each file's exact bytes. Negative runs (wrong key, no key, key given for \
 an archive without encryption - incl. one whose header keeps the encryption parameters of another archive with the encryption bit cleared) on list / cat / extract / to-tar / convert / repair must exit non-zero and leave the output \
 file absent or empty. Non-trivial = pipeline with >= 2 stages on a tree with >= 1 empty file or nested directory; distinct \
@@ -182,17 +182,29 @@ fn verify(s: &Scratch, archive: &str, key: Option<&str>, expected: &BTreeMap<Str
         plant_stale(&d.join(&out1).join(n), data.len())?;
     }
     // the output directory is named plainly, through a '..' component, or through a symbolic link to it
-    let out1_arg = match util::hash64(format!("{tag}|{archive}|{}", expected.len()).as_bytes()) % 3 {
+    let out1_arg = match util::hash64(format!("{tag}|{archive}|{}", expected.len()).as_bytes()) % 5 {
         0 => out1.clone(),
         1 => {
             std::fs::create_dir_all(d.join(format!("via-{tag}"))).map_err(|e| format!("HARNESS: {e}"))?;
             format!("via-{tag}/../{out1}")
         }
-        _ => {
+        2 => {
             std::fs::create_dir_all(d.join(&out1)).map_err(|e| format!("HARNESS: {e}"))?;
             let l = format!("ln-{tag}");
             let _ = std::os::unix::fs::symlink(d.join(&out1), d.join(&l));
             l
+        }
+        3 => {
+            // absolute, with a '..' component
+            std::fs::create_dir_all(d.join(format!("via-{tag}"))).map_err(|e| format!("HARNESS: {e}"))?;
+            d.join(format!("via-{tag}/../{out1}")).display().to_string()
+        }
+        _ => {
+            // absolute, through a symbolic link
+            std::fs::create_dir_all(d.join(&out1)).map_err(|e| format!("HARNESS: {e}"))?;
+            let l = format!("lnabs-{tag}");
+            let _ = std::os::unix::fs::symlink(d.join(&out1), d.join(&l));
+            d.join(&l).display().to_string()
         }
     };
     let mut a = vec!["extract".to_string(), "-i".into(), archive.into(), "-o".into(), out1_arg.clone()];
@@ -205,8 +217,8 @@ fn verify(s: &Scratch, archive: &str, key: Option<&str>, expected: &BTreeMap<Str
             Err(e) => return Err(format!("{tag}: `mlar extract -o {out1_arg}` did not produce {n:?}: {e}")),
         }
     }
-    // extract, one listed name
-    if let Some((n, data)) = expected.iter().nth(expected.len() / 2) {
+    // extract, one listed name (a name with glob metacharacters when the tree has one)
+    if let Some((n, data)) = expected.iter().find(|(k, _)| k.contains('[')).or_else(|| expected.iter().nth(expected.len() / 2)) {
         let out2 = format!("x-{tag}-one");
         plant_stale(&d.join(&out2).join(n), data.len())?;
         let mut a = vec!["extract".to_string(), "-i".into(), archive.into(), "-o".into(), out2.clone()];
@@ -315,6 +327,14 @@ fn oracle(c: &Case, st: &mut Stats) -> Result<(), String> {
         std::fs::create_dir_all(d.join("tree")).ok();
         std::fs::write(d.join("tree/only"), b"x").ok();
         expected.insert("tree/only".into(), b"x".to_vec());
+    }
+    // names holding glob metacharacters next to the name they would match as a pattern: asked for by their exact name
+    // (cat NAME, extract NAME) they are themselves
+    if c.reader_key % 4 >= 2 {
+        for (n, body) in [("tree/report[1].txt", &b"bracketed file"[..]), ("tree/report1.txt", &b"sibling that the name matches when read as a pattern"[..]), ("tree/st*r?.bin", &b"star and question mark"[..]), ("tree/stuffr1.bin", &b"what st*r? matches"[..])] {
+            std::fs::write(d.join(n), body).map_err(|e| format!("HARNESS: {e}"))?;
+            expected.insert(n.to_string(), body.to_vec());
+        }
     }
     // symbolic links in the tree: `mlar create` archives what a link points to, under the link's path - a link to a
     // file (longer than the link text), and in a third of the cases a link to a directory
